@@ -1,11 +1,31 @@
 pub mod c01;
+pub mod c02;
+pub mod c05;
+pub mod c08;
+pub mod c09;
+pub mod c12;
+pub mod dump;
 
 use crate::fw::Tier;
 
 pub fn dispatch(id: &str, tier: Tier, seed: u64, replay: Option<&str>) -> i32 {
-    match (id, replay) {
-        ("C01", None) => c01::run(tier, seed),
-        ("C01", Some(p)) => c01::replay(p),
+    macro_rules! d {
+        ($m:ident) => {
+            match replay {
+                None => $m::run(tier, seed),
+                Some(p) => $m::replay(p),
+            }
+        };
+    }
+    match id {
+        "C01" => d!(c01),
+        "C02" => d!(c02),
+        "C05" => d!(c05),
+        "C08" => d!(c08),
+        "C09" => d!(c09),
+        "C12" => d!(c12),
+        "dump2" => dump::run(2),
+        "dump3" => dump::run(3),
         _ => {
             eprintln!("unknown property {id}");
             2
